@@ -122,7 +122,10 @@ class Ctx(object):
         total = Stats()
         if NPROC <= 1 or len(items) <= 1:
             for it in items:
-                total.merge(func(it))
+                st = _guard(func)(it)
+                if isinstance(st, _WorkerCrash):
+                    raise HarnessError('worker crashed:\n' + st.tb)
+                total.merge(st)
             return total
         ctx = multiprocessing.get_context('fork')
         with ctx.Pool(min(NPROC, len(items))) as pool:
@@ -154,6 +157,48 @@ class _WorkerCrash(object):
         self.tb = tb
 
 
+PROP = None     # the property being checked (set by main, inherited by the forked workers)
+
+
+def library_frame(exc):
+    """The innermost traceback frame that lies inside the library under test ('file.py:function'), or None when the
+    exception never passed through it (then it is the harness's own)."""
+    root = os.path.join(env.REPO_ROOT, 'sigtools') + os.sep
+    hit = None
+    tb = exc.__traceback__
+    while tb is not None:
+        fn = os.path.abspath(tb.tb_frame.f_code.co_filename)
+        if fn.startswith(root) and (os.sep + 'tests' + os.sep) not in fn:
+            hit = '%s:%s' % (os.path.basename(fn), tb.tb_frame.f_code.co_name)
+        tb = tb.tb_next
+    return hit
+
+
+def _pickled(x):
+    import base64, pickle
+    return base64.b64encode(pickle.dumps(x)).decode('ascii')
+
+
+def _unpickled(x):
+    import base64, pickle
+    return pickle.loads(base64.b64decode(x))
+
+
+def escaped(stats, exc, kind, func, arg):
+    """An exception came out of the library at a point where the check (standing for a caller who relies on the property)
+    catches everything the property lets the library raise there.  On the unchanged tree this never happens (the check
+    would end as a harness error); on a changed tree it is behaviour the property does not allow, recorded as a failure
+    whose replay re-runs the same shard or case.  Exceptions that never passed through the library stay harness errors."""
+    where = library_frame(exc)
+    if where is None:
+        return False
+    tb = ''.join(traceback.format_exception(type(exc), exc, exc.__traceback__))
+    stats.fail('%s/escaped/%s@%s' % (PROP, type(exc).__name__, where),
+               {'kind': kind, 'function': '%s:%s' % (func.__module__, func.__name__), 'pickled': _pickled(arg)},
+               '%s: %s escaped from the library into the check\n%s' % (type(exc).__name__, str(exc)[:300], tb[-1400:]))
+    return True
+
+
 class _guard(object):
     def __init__(self, func):
         self.func = func
@@ -161,8 +206,35 @@ class _guard(object):
     def __call__(self, item):
         try:
             return self.func(item)
+        except Exception as e:
+            st = Stats()
+            if escaped(st, e, 'escaped-from-shard', self.func, item):
+                return st
+            return _WorkerCrash(traceback.format_exc())
         except BaseException:
             return _WorkerCrash(traceback.format_exc())
+
+
+def replay_escaped(case, stats):
+    import importlib
+    mod, name = case['function'].split(':')
+    func = getattr(importlib.import_module(mod), name)
+    arg = _unpickled(case['pickled'])
+    if case['kind'] == 'escaped-from-shard':
+        st = _guard(func)(arg)
+        if isinstance(st, _WorkerCrash):
+            raise HarnessError('worker crashed:\n' + st.tb)
+        stats.merge(st)
+    else:
+        run_case(func, arg, stats)
+
+
+def run_case(check, case, stats):
+    try:
+        check(case, stats)
+    except Exception as e:
+        if not escaped(stats, e, 'escaped-from-case', check, case):
+            raise
 
 
 # ---------------------------------------------------------------------------------------
@@ -191,7 +263,7 @@ def hyp_search(strategy, check, stats, max_examples, seed_value, shrink_budget=4
     @hyp_settings(max_examples)
     @given(strategy)
     def search(case):
-        check(case, stats)
+        run_case(check, case, stats)
     search()
 
     for bucket in [b for b in stats.failures if b not in before]:
@@ -205,7 +277,7 @@ def hyp_search(strategy, check, stats, max_examples, seed_value, shrink_budget=4
         @given(strategy)
         def shrink(case):
             tmp = Stats()
-            check(case, tmp)
+            run_case(check, case, tmp)
             if bucket in tmp.failures:
                 best['f'] = tmp.failures[bucket]
                 raise _Found()
@@ -269,7 +341,7 @@ def run_regressions(prop, module, stats):
             continue
         with open(os.path.join(d, name)) as f:
             data = json.load(f)
-        module.replay(data['case'], stats)
+        run_case(module.replay, data['case'], stats)
         n += 1
     stats.extra['regress_replayed'] = n
 
@@ -362,11 +434,16 @@ def main(argv):
         import importlib
         module = importlib.import_module('checks.' + prop.lower())
         ctx = Ctx(prop, a.tier, env.seed())
+        global PROP
+        PROP = prop
         if a.replay:
             with open(a.replay) as f:
                 data = json.load(f)
             st = Stats()
-            module.replay(data['case'], st)
+            if str(data['case'].get('kind', '')).startswith('escaped-from-'):
+                replay_escaped(data['case'], st)
+            else:
+                module.replay(data['case'], st)
             if st.failures:
                 for b, f in st.failures.items():
                     print('VIOLATION property=%s replay=%s' % (prop, os.path.abspath(a.replay)))
